@@ -59,7 +59,11 @@ func raceBackendOps(be Backend, km *KeyMap, g int, ttlWrites bool) map[string]fu
 			_, _ = src.Dump(&buf)
 			_, _ = be.Restore(&buf)
 		},
-		"Janitor": func(i int) { be.Cleanup() },
+		"Janitor": func(i int) {
+			// something for the cycle to delete: an entry expired for longer than DeleteExpiredAfter
+			_ = be.Write(cache.WithTTL(context.Background(), -time.Hour, false), key(i+g), "long-expired")
+			be.Cleanup()
+		},
 	}
 }
 
@@ -164,6 +168,10 @@ func TestRaceChild(t *testing.T) {
 
 				var wg sync.WaitGroup
 
+				// half of the goroutines derive their contexts from ONE request context that carries a TTL (a handler that
+				// fans out): the library reads that TTL, it must never write into it
+				shared := cache.WithTTL(context.Background(), time.Hour, false)
+
 				for g := 0; g < 6; g++ {
 					wg.Add(1)
 
@@ -173,9 +181,15 @@ func TestRaceChild(t *testing.T) {
 						for i := 0; i < iters; i++ {
 							mk := cfg.Keys[(g+i)%2]
 							p := fmt.Sprintf("g%d", g)
-							ctx := context.WithValue(context.WithValue(context.Background(), procKey{}, p), ctxProbe{}, p)
 
-							if i%7 == 0 {
+							base := context.Background()
+							if g%2 == 0 {
+								base = shared
+							}
+
+							ctx := context.WithValue(context.WithValue(base, procKey{}, p), ctxProbe{}, p)
+
+							if i%7 == 0 && g%2 == 1 {
 								ctx = cache.WithTTL(ctx, -time.Second, false) // stored expired: stale paths, background updates
 							}
 
